@@ -441,6 +441,14 @@ def f_relx():
     add("group requires + conflicts via env", cmd("p", [arg("a", "a", "aa", env="e"), arg("b", "b", "bb", action="SetTrue"), arg("c", "c", "cc", action="SetTrue", conflicts=["g"]),
                                                         arg("d", "d", action="SetTrue")],
                                                   groups=[group("g", ["a"], requires=["b"])]), values=())
+    # values that came from defaults never trigger exclusivity, conflicts, requirements or group presence
+    add("exclusive + default", cmd("p", [arg("e", "e", "ee", exclusive=True, defaults=["d"]), arg("a", "a", action="SetTrue"), arg("b", "b", action="SetTrue"),
+                                         arg("o", "o", "oo")]), values=("v",))
+    add("conflicts/requires + default", cmd("p", [arg("x", "x", "xx", defaults=["d"], conflicts=["a"], requires=["b"]), arg("a", "a", action="SetTrue"),
+                                                  arg("b", "b", action="SetTrue")]), values=("v",))
+    add("group member + default", cmd("p", [arg("x", "x", "xx", defaults=["d"]), arg("a", "a", action="SetTrue", conflicts=["g"]), arg("b", "b", action="SetTrue"),
+                                            arg("y", "y", action="SetTrue", default_ifs=[])],
+                                      groups=[group("g", ["x"], requires=["b"])]), values=("v",))
     add("transitive requires", cmd("p", [arg("a", "a", action="SetTrue", requires=["b"]), arg("b", "b", action="SetTrue", requires=["c"]),
                                          arg("c", "c", action="SetTrue")]), values=())
     add("exclusive + required", cmd("p", [arg("e", "e", action="SetTrue", exclusive=True), arg("r", "r", required=True), arg("f", "f", action="SetTrue")]), values=("v",))
